@@ -31,6 +31,9 @@ def make_models():
         from .npmodel import NumpyModel
 
         m.plugins.insert(0, NumpyModel())
+        from .plug_np_c10 import NpC10Models  # C10: more numpy functions on precise arrays, in-place `a op= b` on array names (gated on ArrObj operands)
+
+        m.plugins.insert(0, NpC10Models())
     except ImportError:
         pass
     from .plug_caches import CacheModels  # C05: full caches (hooks gated on the cache modules / declared proxy fields)
@@ -39,6 +42,15 @@ def make_models():
     from .plug_grammars import GrammarModels  # C15: collections.abc mixins of the grammar classes, type objects as opaque values
 
     m.plugins.insert(0, GrammarModels())
+    from .plug_np_c17 import NpC17Models  # C17: sum over symbolic sequences, empty(dtype)/arange(a,b)/copy (hooks gated on `np_c17 = True` contracts)
+
+    m.plugins.insert(0, NpC17Models())
+    from .plug_np_c07 import C07Models  # C07: matrix values (dense/sparse), assumed scipy block contracts, abstract matrix ring (gated on `c07` contracts / own types)
+
+    m.plugins.insert(0, C07Models())
+    from .plug_hdf import HdfModels  # C11: abstract h5py node (hooks gated on its own h5py.Group objects / on module gemseo.algos._hdf_database)
+
+    m.plugins.insert(0, HdfModels())
     return m
 
 
